@@ -22,7 +22,7 @@ JOBS = {'quick': 2, 'thorough': 16}
 REQUIRED_MONITORS = ('tiling_vs_reference', 'random_access_vs_reference', 'iterator_vs_reference')
 REQUIRED_CLASSES = ('layout:blocks', 'layout:alternating', 'layout:same-name-different-size',
                     'layout:same-name-size-different-atoms', 'layout:single-atom', 'layout:giant', 'layout:digit-names',
-                    'layout:resid-wrap', 'layout:constant-name-increasing-number', 'vel:yes', 'vel:no',
+                    'layout:resid-wrap', 'layout:constant-name-increasing-number', 'vel:yes', 'vel:no', 'vel:some-atoms-at-rest',
                     'op:index', 'op:negative-index', 'op:slice', 'op:slice-negative-step', 'op:next', 'op:out-of-range',
                     'object:fresh-never-walked', 'object:walked-completely-before')
 RULE = ('files: residue layout class x residue sizes 1..12 x 1..400 residues (thorough: up to 5000) x velocities; access '
@@ -64,9 +64,13 @@ def cases(ctx):
         yield {'i': i, 'layout': LAYOUTS[i % len(LAYOUTS)]}
 
 
+_rest = [0]
+
+
 def gen_file(rng, layout, nres_max):
     """List of records (resid, resname, name, atomid, xyz, vel|None)."""
     vel = rng.random() < 0.4
+    rest = _rest
     nres = int(rng.integers(1, nres_max + 1))
     kinds = []
     nk = int(rng.integers(2, 6))
@@ -113,6 +117,9 @@ def gen_file(rng, layout, nres_max):
         for a in atoms:
             xyz = tuple(float(np.round(x, 3)) for x in rng.uniform(-9, 99, 3))
             v = tuple(float(np.round(x, 4)) for x in rng.normal(size=3)) if vel else None
+            if vel and rng.random() < 0.08:
+                v = (0.0, 0.0, 0.0)           # an atom at rest (frozen group, wall, velocities not generated yet)
+                rest[0] += 1
             records.append((resid % 100000, name, a, atomid % 100000, xyz, v))
             atomid += 1
         if layout == 'digit-names':
@@ -166,6 +173,9 @@ def run_case(ctx, case):
     ctx.count('evaluations')
     ctx.hit('layout:' + layout)
     ctx.hit('vel:' + ('yes' if vel else 'no'))
+    if _rest[0]:
+        ctx.hit('vel:some-atoms-at-rest')
+        _rest[0] = 0
     w = {'layout': layout, 'n_residues': len(want), 'file_head': open(path).read()[:900]}
     try:
         s = SystemGro(path)
